@@ -289,6 +289,16 @@ func TestC12(t *testing.T) {
 			BareReceiver: rapid.IntRange(0, 3).Draw(rt, "bareA") == 0,
 			BareArgument: rapid.IntRange(0, 3).Draw(rt, "bareB") == 0,
 		}
+		if rapid.IntRange(0, 4).Draw(rt, "samefile") == 0 && len(c.A) > 0 {
+			// two readings of the same file, or two files sharing cues: the argument's cues equal cues of the receiver
+			// in every field (distinct objects all the same); with or without definitions
+			c.B = append([]cueSpec(nil), c.A[:rapid.IntRange(1, len(c.A)).Draw(rt, "samen")]...)
+			if rapid.Bool().Draw(rt, "nodefs") {
+				c.AStyles, c.BStyles, c.ARegions, c.BRegions = nil, nil, nil, nil
+			} else {
+				c.BStyles, c.BRegions = c.AStyles, c.ARegions
+			}
+		}
 		tie := false
 		for _, x := range c.A {
 			for _, y := range c.B {
